@@ -20,7 +20,7 @@ from harness import common, ref
 from harness.c07 import event
 
 BOUNDS = {
-    "quick": {"dataset": "2 inputs, 2 times x 1 lead time x 2 locations, finite obs/fcst", "axes": "location, time, leadtime, no, threshold (2 symbolic thresholds)",
+    "quick": {"dataset": "2 inputs, 2 times x 1 lead time x 2 locations, finite obs/fcst", "axes": "location, time, leadtime, no, threshold (2 symbolic thresholds), obs and fcst (3 symbolic edges, within=)",
               "variants": "csv/text x -acc x -leg x -f"},
     "thorough": {"dataset": "2 inputs, 2 x 2 x 2", "axes": "same + lat, elev, year", "variants": "same"},
 }
@@ -71,7 +71,7 @@ def capture(S, out_module, filename):
                     store["file"] = f.read()
 
 
-def h_output(T, L, P, thorough):
+def h_output(T, L, P, thorough, only_axes=None):
     def fn(S):
         data = load.modules["verif.data"]
         metric = load.modules["verif.metric"]
@@ -91,13 +91,15 @@ def h_output(T, L, P, thorough):
             raw.append((obs, fcst))
             ins.append(MI("dir/%s.txt" % nm, common.int_array(S, times), S.vector(lts),
                           common.locations(ids[:P], lats[:P], lons[:P], elevs[:P]), obs=obs.copy(), fcst=fcst.copy()))
-        legend = [None, ["first run", "second"]][S.choose("legend", 2)]
+        legend = [None, ["first run", "second"]][S.choose("legend", 2)] if only_axes is None else None
         D = data.Data(ins, legend=legend)
         axes = ["location", "time", "leadtime", "no", "threshold", "location+thresholds"] + (["lat", "elev", "year"] if thorough else [])
+        if only_axes is not None:
+            axes = list(only_axes)
         axname = axes[S.choose("axis", len(axes))]
         fmt = ["csv", "text"][S.choose("format", 2)]
         acc = bool(S.choose("acc", 2))
-        to_file = bool(S.choose("file", 2))
+        to_file = bool(S.choose("file", 2)) if only_axes is None else False
         cells = list(np.ndindex(*shape))
         avg_thresholds = None
         use_ratio = False
@@ -111,6 +113,16 @@ def h_output(T, L, P, thorough):
             pl.axis = ax.Location()
             avg_thresholds = [t1, t2]
             slices = [("loc", p) for p in sorted(range(P), key=lambda p: ids[p])]
+        elif axname in ("obs", "fcst"):
+            # -x obs / -x fcst: one row per interval of the observed / forecasted value, each with its own score
+            m = metric.Mae()
+            pl = out.Standard(m)
+            ts = [S.real("r%d" % i, lo=0, hi=50) for i in range(3)]
+            S.assume(S.and_(ts[0] < ts[1], ts[1] < ts[2]))
+            pl.thresholds = S.vector(ts)
+            pl.bin_type = "within="
+            pl.axis = ax.get(axname)
+            slices = [("bin", (ts[0], ts[1])), ("bin", (ts[1], ts[2]))]
         elif axname == "threshold":
             m = metric.Within()
             pl = out.Standard(m)
@@ -144,6 +156,10 @@ def h_output(T, L, P, thorough):
         def score(f, sl):
             kind, k = sl
             o, fc = raw[f]
+            if kind == "bin":
+                v = o if axname == "obs" else fc
+                sel = [c for c in cells if bool(event(S, v[c], "within=", k[0], k[1]))]
+                return ref.r_mean(S, [S.abs(o[c] - fc[c]) for c in sel]) if sel else float("nan")
             if kind == "thr":
                 d = [S.abs(o[c] - fc[c]) for c in cells]
                 return S.div(S.count(x < k for x in d) * 100.0, len(d))     # within: default bin type 'below'
@@ -195,7 +211,8 @@ def h_output(T, L, P, thorough):
         header = [w.strip() for w in lines[0].split(sep) if w.strip() != ""]
         labels = legend if legend is not None else ["A.txt", "B.txt"]
         desc_names = {"location": ["id", "lat", "lon", "elev"], "lat": ["id", "lat", "lon", "elev"], "elev": ["id", "lat", "lon", "elev"],
-                      "time": ["Time"], "year": ["Year"], "leadtime": ["Leadtime"], "no": ["No"], "threshold": ["Threshold"]}[axname]
+                      "time": ["Time"], "year": ["Year"], "leadtime": ["Leadtime"], "no": ["No"], "threshold": ["Threshold"],
+                      "obs": ["Observed"], "fcst": ["Forecasted"]}[axname]
         S.prove("header=descriptors+one-column-per-input", header == desc_names + labels, detail="%s/%s" % (fmt, axname))
         S.prove("one-line-per-slice", len(lines) == 1 + len(slices), detail="%s/%s" % (fmt, axname))
         if len(lines) != 1 + len(slices):
@@ -223,6 +240,8 @@ def h_output(T, L, P, thorough):
                 S.prove("row-identifies-its-date", fields[0] == stamp, detail=fmt)
             elif kind == "lead":
                 S.prove("row-identifies-its-leadtime", float(fields[0]) == lts[k], detail=fmt)
+            elif kind == "bin":
+                S.prove("row-identifies-its-interval-by-the-lower-edge", S.close(float(fields[0]), k[0], tol=0.51 * 10 ** (1 - 6)), detail=fmt)
             elif kind == "thr":
                 S.prove("row-identifies-its-threshold", S.close(float(fields[0]), k, tol=0.51 * 10 ** (1 - 6)), detail=fmt)
     return fn
@@ -231,4 +250,6 @@ def h_output(T, L, P, thorough):
 def harnesses(tier):
     thorough = tier == "thorough"
     return [Harness("text_csv", h_output(2, 2 if thorough else 1, 2, thorough), "Standard._get_x_y + text()/csv() on a real dataset",
-                    query_timeout_ms=20000)]
+                    query_timeout_ms=20000),
+            Harness("text_csv.bins", h_output(2, 1, 2 if thorough else 1, thorough, only_axes=("obs", "fcst")),
+                    "-x obs / -x fcst: one row per interval, each with its own score", query_timeout_ms=20000)]
